@@ -50,8 +50,8 @@ func main() {
 //
 //	quick    : Patient, Observation, Bundle + 24 types rotating with the seed, instance = seed mod 3,
 //	           plus the hand-written model resources MR1..MR3 and 6 randomly thinned instances
-//	thorough : all 146 types x 2 instances (every choice alternative index 0..1 + seed), MR1..MR3,
-//	           and 60 randomly thinned instances
+//	thorough : all 146 types (instance number rotating so that every choice alternative index occurs), MR1..MR3,
+//	           and 40 randomly thinned instances
 func gen(treesPath, resPath string) {
 	seed := lib.Seed()
 	rng := rand.New(rand.NewSource(seed))
@@ -64,12 +64,10 @@ func gen(treesPath, resPath string) {
 	var jobs []job
 	thorough := os.Getenv("VERIF_TIER") == "thorough"
 	if thorough {
-		for _, t := range types {
-			for k := 0; k < 2; k++ {
-				jobs = append(jobs, job{t, lib.PopOptions{Inst: int(seed) + k, Contained: true}, ""})
-			}
+		for n, t := range types {
+			jobs = append(jobs, job{t, lib.PopOptions{Inst: int(seed) + n%3, Contained: true}, ""})
 		}
-		for k := 0; k < 60; k++ {
+		for k := 0; k < 40; k++ {
 			t := types[rng.Intn(len(types))]
 			jobs = append(jobs, job{t, lib.PopOptions{Inst: rng.Intn(50), Contained: true, Rand: rand.New(rand.NewSource(rng.Int63())), KeepProb: 0.5}, ""})
 		}
